@@ -45,7 +45,7 @@ Proof.
 Qed.
 
 Lemma sumQ_cons x r : sumQ (x :: r) == x + sumQ r.
-Proof. cbn [sumQ]. apply Qred2_correct. Qed.
+Proof. reflexivity. Qed.
 
 Lemma sumQ_map_scale (f : Q -> Q) (c : Q) (w : list Q) :
   (forall s, f s == s * c) -> sumQ (map f w) == sumQ w * c.
@@ -138,9 +138,8 @@ Lemma shaped_flip_exact (X : rf_exprs) (w : list Q) (a dwell pi : Q) :
   2 * pi * dwell * sumQ (shaped_signal X w a dwell pi) == a.
 Proof.
   intros SP Hs Hd Hp. unfold shaped_signal.
-  set (fl := Qred (x_flip X (sumQ w) dwell pi)).
-  assert (Hfl : fl == sumQ w * dwell * 2 * pi).
-  { unfold fl. rewrite Qred_correct. apply (sp_flip X SP). }
+  set (fl := x_flip X (sumQ w) dwell pi).
+  assert (Hfl : fl == sumQ w * dwell * 2 * pi) by apply (sp_flip X SP).
   rewrite (sumQ_map_scale _ (a / fl)) by (intro s; apply (sp_scale X SP)).
   rewrite Hfl. field. repeat split; assumption.
 Qed.
@@ -177,8 +176,8 @@ Lemma arb_flip_pos (w : list Q) (a dwell pi : Q) :
   2 * pi * dwell * sumQ (arb_signal w false a dwell pi) == a.
 Proof.
   intros Hs Hd Hp. unfold arb_signal.
-  set (sw := Qred (sumQ w)).
-  assert (Hsw : sw == sumQ w) by (unfold sw; apply Qred_correct).
+  set (sw := sumQ w).
+  assert (Hsw : sw == sumQ w) by reflexivity.
   rewrite (sumQ_map_scale _ (a / (Qabs (sw * dwell) * (2 * pi)))) by (intro s; apply arb_scale_spec).
   assert (P : 0 < sw * dwell) by (rewrite Hsw; apply Qmult_lt_0_compat; assumption).
   rewrite (Qabs_pos (sw * dwell)) by lra.
@@ -190,8 +189,8 @@ Lemma arb_flip_neg (w : list Q) (a dwell pi : Q) :
   2 * pi * dwell * sumQ (arb_signal w false a dwell pi) == - a.
 Proof.
   intros Hs Hd Hp. unfold arb_signal.
-  set (sw := Qred (sumQ w)).
-  assert (Hsw : sw == sumQ w) by (unfold sw; apply Qred_correct).
+  set (sw := sumQ w).
+  assert (Hsw : sw == sumQ w) by reflexivity.
   rewrite (sumQ_map_scale _ (a / (Qabs (sw * dwell) * (2 * pi)))) by (intro s; apply arb_scale_spec).
   assert (P : sw * dwell < 0).
   { rewrite Hsw. setoid_replace (sumQ w * dwell) with (- ((- sumQ w) * dwell)) by ring.
@@ -500,7 +499,7 @@ Lemma make_shaped_inv gauss X S pi w flip delay duration dwell0 cp fo po bw0 tbw
                   (x_gzr_area X area cp (g_area gz0)) = Ok gzr
   end.
 Proof.
-  intros H dwell r0 area. unfold make_shaped in H. fold (eff_dwell S dwell0) in H. fold dwell in H.
+  intros H dwell r0 area. unfold make_shaped, make_shaped_gen in H. fold (eff_dwell S dwell0) in H. fold dwell in H.
   destruct (use_ok use) eqn:EU; cbn [negb] in H; [|discriminate].
   destruct (negb gauss && Qleb duration 0)%bool eqn:ED; [discriminate|].
   destruct (Qeqb duration 0 && (negb gauss || Qeqb bw0 0))%bool eqn:EZ; [discriminate|].
@@ -761,7 +760,7 @@ Lemma make_arbitrary_inv Sy pi w flip bw0 delay dwell0 fo po noscale mg ms rgz t
                           (s_grad_raster Sy) duration area r0 gz0 r gz
   end.
 Proof.
-  intros H dwell r0 duration area. unfold make_arbitrary in H.
+  intros H dwell r0 duration area. unfold make_arbitrary, make_arbitrary_gen in H.
   fold (eff_dwell Sy dwell0) in H. fold dwell in H.
   fold (arb_r0 Sy pi w flip delay dwell fo po noscale use) in H. fold r0 in H. fold duration in H.
   destruct (use_ok use) eqn:EU; cbn [negb] in H; [|discriminate].
@@ -981,3 +980,303 @@ Section Adia.
     - intro C. rewrite RG, C, Ar, Fa, Fl, EA, AM. field. split; (exact NZ || lra).
   Qed.
 End Adia.
+
+(* ============================================================================================== *)
+(* ROUND 2 *)
+(* ---------------------------------------------------------------------------------------------- *)
+(* (1) the fast forms executed by the runner equal the specification forms *)
+Lemma Qplus_c_correct x y : Qplus_c x y == x + y.
+Proof. unfold Qplus_c, Qplus, Qeq. cbn [Qnum Qden]. ring. Qed.
+
+Lemma sumQ_fast_correct w : sumQ_fast w == sumQ w.
+Proof.
+  induction w as [|x r IH]; [reflexivity|].
+  cbn [sumQ_fast sumQ]. rewrite Qred2_correct, Qplus_c_correct, IH. reflexivity.
+Qed.
+
+Lemma Forall2_map_same {A} (R : Q -> Q -> Prop) (f g : A -> Q) (w : list A) :
+  (forall s, R (f s) (g s)) -> Forall2 R (map f w) (map g w).
+Proof. intro H. induction w; cbn; constructor; auto. Qed.
+
+Lemma Forall2_Qeq_refl l : Forall2 Qeq l l.
+Proof. induction l; constructor; [reflexivity|assumption]. Qed.
+
+Lemma shaped_signal_fast_correct X w a d p : shaped_spec X ->
+  Forall2 Qeq (shaped_signal_fast X w a d p) (shaped_signal X w a d p).
+Proof.
+  intro SP. unfold shaped_signal_fast, shaped_signal. apply Forall2_map_same. intro s.
+  rewrite Qred_correct. rewrite !(sp_scale X SP). rewrite Qred_correct. rewrite !(sp_flip X SP).
+  rewrite sumQ_fast_correct. ring.
+Qed.
+
+Lemma arb_signal_fast_correct w ns a d p :
+  Forall2 Qeq (arb_signal_fast w ns a d p) (arb_signal w ns a d p).
+Proof.
+  unfold arb_signal_fast, arb_signal. destruct ns; [apply Forall2_Qeq_refl|].
+  apply Forall2_map_same. intro s.
+  rewrite Qred_correct. rewrite !arb_scale_spec. rewrite Qred_correct, sumQ_fast_correct. ring.
+Qed.
+
+(* the signal is only carried along by the makers: factor it out *)
+Lemma couple_set_signal fg fr raster r s gz :
+  couple fg fr raster (set_rf_signal r s) gz =
+  (set_rf_signal (fst (couple fg fr raster r gz)) s, snd (couple fg fr raster r gz)).
+Proof.
+  unfold couple. cbn [set_rf_signal r_delay fst snd].
+  destruct (Qltb (g_rise gz) (r_delay r)); cbn [g_rise g_delay set_gz_delay];
+    match goal with |- context [if ?b then _ else _] => destruct b end; reflexivity.
+Qed.
+
+Definition attach_signal {A} (s : list Q) (x : res (rf * A)) : res (rf * A) :=
+  match x with Ok (r, g) => Ok (set_rf_signal r s, g) | Err e => Err e end.
+
+Definition no_signal (X : rf_exprs) (w : list Q) (a d p : Q) : list Q := [].
+
+Lemma make_shaped_gen_factor sigf gauss X Sy pi w flip delay duration dwell0 cp fo po bw0 tbw rgz th mg ms use :
+  make_shaped_gen sigf gauss X Sy pi w flip delay duration dwell0 cp fo po bw0 tbw rgz th mg ms use =
+  attach_signal (sigf X w flip (eff_dwell Sy dwell0) pi)
+    (make_shaped_gen no_signal gauss X Sy pi w flip delay duration dwell0 cp fo po bw0 tbw rgz th mg ms use).
+Proof.
+  unfold make_shaped_gen. fold (eff_dwell Sy dwell0).
+  destruct (negb (use_ok use)); [reflexivity|].
+  destruct (negb gauss && Qleb duration 0)%bool; [reflexivity|].
+  destruct (Qeqb duration 0 && (negb gauss || Qeqb bw0 0))%bool; [reflexivity|].
+  destruct (Qeqb (eff_dwell Sy dwell0) 0); [reflexivity|].
+  destruct (negb (Nat.eqb (length w) (Z.to_nat (rnd_he (duration / eff_dwell Sy dwell0))))); [reflexivity|].
+  destruct rgz; [|reflexivity].
+  destruct (Qeqb th 0); [reflexivity|].
+  match goal with |- context [trap_flat_area ?a ?b ?c ?d ?e] => destruct (trap_flat_area a b c d e) as [gz0|e0]; [|reflexivity] end.
+  match goal with |- context [trap_area ?a ?b ?c ?d] => destruct (trap_area a b c d) as [gzr|e1]; [|reflexivity] end.
+  unfold no_signal.
+  match goal with |- context [couple ?fg ?fr ?ra (mkRf (sigf X w flip ?dw pi) ?t ?sd ?f ?p ?de ?ri ?dl ?u) gz0] =>
+    change (mkRf (sigf X w flip dw pi) t sd f p de ri dl u) with (set_rf_signal (mkRf [] t sd f p de ri dl u) (sigf X w flip dw pi));
+    rewrite (couple_set_signal fg fr ra (mkRf [] t sd f p de ri dl u) (sigf X w flip dw pi) gz0);
+    destruct (couple fg fr ra (mkRf [] t sd f p de ri dl u) gz0) as [r1 gz1] end.
+  reflexivity.
+Qed.
+
+Definition no_signal_arb (w : list Q) (ns : bool) (a d p : Q) : list Q := [].
+
+Lemma make_arbitrary_gen_factor sigf Sy pi w flip bw0 delay dwell0 fo po ns mg ms rgz th tbw use :
+  make_arbitrary_gen sigf Sy pi w flip bw0 delay dwell0 fo po ns mg ms rgz th tbw use =
+  attach_signal (sigf w ns flip (eff_dwell Sy dwell0) pi)
+    (make_arbitrary_gen no_signal_arb Sy pi w flip bw0 delay dwell0 fo po ns mg ms rgz th tbw use).
+Proof.
+  unfold make_arbitrary_gen. fold (eff_dwell Sy dwell0).
+  destruct (negb (use_ok use)); [reflexivity|].
+  destruct rgz; [|reflexivity].
+  destruct (Qleb th 0); [reflexivity|].
+  destruct (Qleb bw0 0); [reflexivity|].
+  match goal with |- context [(Qltb 0 tbw && ?c)%bool] => destruct (Qltb 0 tbw && c)%bool; [reflexivity|] end.
+  match goal with |- context [trap_flat_area ?a ?b ?c ?d ?e] => destruct (trap_flat_area a b c d e) as [gz0|e0]; [|reflexivity] end.
+  unfold no_signal_arb.
+  match goal with |- context [couple ?fg ?fr ?ra (mkRf (sigf w ns flip ?dw pi) ?t ?sd ?f ?p ?de ?ri ?dl ?u) gz0] =>
+    change (mkRf (sigf w ns flip dw pi) t sd f p de ri dl u) with (set_rf_signal (mkRf [] t sd f p de ri dl u) (sigf w ns flip dw pi));
+    rewrite (couple_set_signal fg fr ra (mkRf [] t sd f p de ri dl u) (sigf w ns flip dw pi) gz0);
+    destruct (couple fg fr ra (mkRf [] t sd f p de ri dl u) gz0) as [r1 gz1] end.
+  reflexivity.
+Qed.
+
+(* two results that agree on everything except that the signals are pointwise == *)
+Definition same_up_to_signal {A} (x y : res (rf * A)) : Prop :=
+  match x, y with
+  | Ok (r1, g1), Ok (r2, g2) =>
+      g1 = g2 /\ set_rf_signal r1 [] = set_rf_signal r2 [] /\ Forall2 Qeq (r_signal r1) (r_signal r2)
+  | Err e1, Err e2 => e1 = e2
+  | _, _ => False
+  end.
+
+Lemma attach_same {A} s1 s2 (x : res (rf * A)) : Forall2 Qeq s1 s2 ->
+  same_up_to_signal (attach_signal s1 x) (attach_signal s2 x).
+Proof.
+  intro H. destruct x as [[r g]|e]; cbn; [|reflexivity]. repeat split; auto.
+Qed.
+
+Lemma make_shaped_fast_correct gauss X Sy pi w flip delay duration dwell0 cp fo po bw0 tbw rgz th mg ms use :
+  shaped_spec X ->
+  same_up_to_signal
+    (make_shaped_fast gauss X Sy pi w flip delay duration dwell0 cp fo po bw0 tbw rgz th mg ms use)
+    (make_shaped gauss X Sy pi w flip delay duration dwell0 cp fo po bw0 tbw rgz th mg ms use).
+Proof.
+  intro SP. unfold make_shaped_fast, make_shaped.
+  rewrite (make_shaped_gen_factor shaped_signal_fast), (make_shaped_gen_factor shaped_signal).
+  apply attach_same. apply shaped_signal_fast_correct. exact SP.
+Qed.
+
+Lemma make_arbitrary_fast_correct Sy pi w flip bw0 delay dwell0 fo po ns mg ms rgz th tbw use :
+  same_up_to_signal
+    (make_arbitrary_fast Sy pi w flip bw0 delay dwell0 fo po ns mg ms rgz th tbw use)
+    (make_arbitrary Sy pi w flip bw0 delay dwell0 fo po ns mg ms rgz th tbw use).
+Proof.
+  unfold make_arbitrary_fast, make_arbitrary.
+  rewrite (make_arbitrary_gen_factor arb_signal_fast), (make_arbitrary_gen_factor arb_signal).
+  apply attach_same. apply arb_signal_fast_correct.
+Qed.
+
+(* ---------------------------------------------------------------------------------------------- *)
+(* (2) ceil-threshold bracketing.  The code computes k = ceil((rf.delay - gz.rise_time)/raster) in binary64 (and takes
+   the `rf.delay > gz.rise_time` decision in binary64); the exact model may therefore pick a k that differs by one
+   when the quotient is within delta of an integer.  [couple_with k] is the coupling with gz.delay := k*raster for an
+   ARBITRARY integer k; every k in the delta-bracket  e - delta*raster <= k*raster < e + raster + delta*raster
+   (e = max(rf.delay - gz.rise_time, 0)), i.e. every ceil of a quotient perturbed by at most delta, satisfies all the
+   C13 clauses (the last two up to delta*raster).  delta = 0 is the exact model. *)
+Definition couple_with (k : Z) (fr : Q -> Q -> Q) (raster : Q) (r : rf) (gz : trap) : rf * trap :=
+  let gz' := set_gz_delay gz (inject_Z k * raster) in
+  let r' := if Qltb (r_delay r) (g_rise gz' + g_delay gz')
+            then set_rf_delay r (fr (g_rise gz') (g_delay gz')) else r in
+  (r', gz').
+
+Definition in_bracket (delta raster : Q) (r : rf) (gz : trap) (k : Z) : Prop :=
+  let e := Qmax (r_delay r - g_rise gz) 0 in
+  (0 <= k)%Z /\ e - delta * raster <= inject_Z k * raster /\ inject_Z k * raster < e + raster + delta * raster.
+
+Lemma couple_with_bracket k fr raster delta r gz r' gz' :
+  rf_delay_spec fr -> 0 < raster -> 0 <= delta ->
+  in_bracket delta raster r gz k ->
+  couple_with k fr raster r gz = (r', gz') ->
+  (* the RF does not start before the flat top; it starts at most delta*raster after its start *)
+  g_delay gz' + g_rise gz' <= r_delay r' /\
+  r_delay r' - (g_delay gz' + g_rise gz') <= delta * raster /\
+  (* gz.delay is a non-negative multiple of the raster, at most (1+delta) raster later than necessary *)
+  g_delay gz' = inject_Z k * raster /\ (0 <= k)%Z /\
+  g_delay gz' < Qmax (r_delay r - g_rise gz) 0 + raster + delta * raster /\
+  (* the RF delay is never decreased and moved by less than (1+delta) raster beyond max(delay, rise) *)
+  r_delay r <= r_delay r' /\
+  r_delay r' < g_rise gz + Qmax (r_delay r - g_rise gz) 0 + raster + delta * raster /\
+  (* nothing else changes *)
+  g_rise gz' = g_rise gz /\ g_flat gz' = g_flat gz /\ g_amp gz' = g_amp gz /\ r_signal r' = r_signal r /\ r_t r' = r_t r.
+Proof.
+  intros SR Hr Hd (K0 & B1 & B2). unfold couple_with. intro H. injection H as <- <-.
+  cbn [set_gz_delay g_rise g_delay g_flat g_amp].
+  set (e := Qmax (r_delay r - g_rise gz) 0) in *.
+  assert (E1 : r_delay r - g_rise gz <= e) by apply Qmax_ub_l.
+  assert (E2 : 0 <= e) by apply Qmax_ub_r.
+  assert (DR : 0 <= delta * raster) by (apply Qmult_le_0_compat; lra).
+  set (dr := delta * raster) in *. set (gd := inject_Z k * raster) in *.
+  destruct (Qltb (r_delay r) (g_rise gz + gd)) eqn:E.
+  - apply Qltb_lt in E. cbn [set_rf_delay r_delay r_signal r_t].
+    pose proof (SR (g_rise gz) gd) as F. repeat split; auto; lra.
+  - apply Qltb_false in E. repeat split; auto; lra.
+Qed.
+
+(* the exact model's own choice lies in the bracket with delta = 0 and coincides with couple_with of that k *)
+Lemma couple_in_bracket fg fr raster r gz r' gz' :
+  gz_delay_spec fg -> rf_delay_spec fr -> 0 < raster -> g_delay gz == 0 ->
+  couple fg fr raster r gz = (r', gz') ->
+  exists k : Z, in_bracket 0 raster r gz k /\ g_delay gz' == inject_Z k * raster /\
+    r_delay r' == g_rise gz + inject_Z k * raster.
+Proof.
+  intros SG SR Hr D0 HC.
+  pose proof (couple_keeps _ _ _ _ _ _ _ HC) as (_ & _ & _ & _ & _ & _ & _ & _ & _ & G2 & _).
+  pose proof (couple_delays _ _ _ _ _ _ _ SG SR Hr D0 HC) as (T1 & T2 & (k & K0 & T3) & T4).
+  rewrite G2 in T1. exists k. split; [|split; [exact T3|rewrite T1, T3; ring]].
+  unfold in_bracket. cbv zeta.
+  set (e := Qmax (r_delay r - g_rise gz) 0) in *.
+  split; [exact K0|]. rewrite <- T3. split; [|lra].
+  setoid_replace (0 * raster) with 0 by ring.
+  (* e <= g_delay gz': either e = rf.delay - rise <= r'.delay - rise = g_delay gz', or e = 0 <= k*raster *)
+  unfold e. destruct (Qmax_case (r_delay r - g_rise gz) 0) as [M|M]; rewrite M.
+  - lra.
+  - rewrite T3. assert (0 <= inject_Z k) by (rewrite Zle_Qle in K0; exact K0).
+    assert (0 <= inject_Z k * raster) by (apply Qmult_le_0_compat; lra). lra.
+Qed.
+
+(* ---------------------------------------------------------------------------------------------- *)
+(* (3) block pulse, ALL durations (also the ones derived from bandwidth / time_bw_product): the delivered flip angle *)
+Lemma block_flip_general Sy pi flip delay duration bandwidth tbw fo po use r :
+  make_block Sy pi flip delay duration bandwidth tbw fo po use = Ok r -> 0 < pi ->
+  exists dur s t0 t1,
+    block_duration duration bandwidth tbw = Ok dur /\ 0 < dur /\
+    r_signal r = [s; s] /\ r_t r = [t0; t1] /\ t0 == 0 /\
+    let N := rnd_he (dur / s_rf_raster Sy) in
+    t1 == inject_Z N * s_rf_raster Sy /\ r_shape_dur r == inject_Z N * s_rf_raster Sy /\
+    2 * pi * (s * (t1 - t0)) == flip * (inject_Z N * s_rf_raster Sy / dur) /\
+    (0 < s_rf_raster Sy ->
+       Qabs (2 * pi * (s * (t1 - t0)) - flip) <= Qabs flip * (s_rf_raster Sy / (2 * dur))).
+Proof.
+  intros H Hp. apply make_block_inv in H. destruct H as (d & ED & Pd & NR & _ & Sg & T & SD & _).
+  cbv zeta in Sg, T, SD.
+  exists d. eexists _, _, _. split; [exact ED|]. split; [exact Pd|]. split; [exact Sg|]. split; [exact T|].
+  cbv zeta. rewrite !block_t_spec, block_signal_spec. rewrite SD, block_t_spec.
+  set (ra := s_rf_raster Sy) in *. set (N := rnd_he (d / ra)).
+  assert (DEL : 2 * pi * (flip / (2 * pi) / d * (inject_Z N * ra - 0 * ra)) == flip * (inject_Z N * ra / d))
+    by (field; split; lra).
+  split; [ring|]. split; [reflexivity|]. split; [reflexivity|]. split; [exact DEL|].
+  intro Pr. rewrite DEL.
+  pose proof (rnd_he_err (d / ra)) as RE. fold N in RE. unfold Qhalf in RE.
+  setoid_replace (flip * (inject_Z N * ra / d) - flip) with (flip * ((inject_Z N - d / ra) * (ra / d)))
+    by (field; split; lra).
+  rewrite !Qabs_Qmult.
+  assert (PC : 0 < ra / d) by (apply Qlt_shift_div_l; lra).
+  rewrite (Qabs_pos (ra / d)) by lra.
+  assert (AX : Qabs (inject_Z N - d / ra) <= 1 # 2).
+  { setoid_replace (inject_Z N - d / ra) with (- (d / ra - inject_Z N)) by ring. rewrite Qabs_opp. exact RE. }
+  setoid_replace (ra / (2 * d)) with ((1 # 2) * (ra / d)) by (field; lra).
+  rewrite (Qmult_comm (Qabs flip)). rewrite (Qmult_comm (Qabs flip) ((1 # 2) * (ra / d))).
+  apply Qmult_le_compat_r; [|apply Qabs_nonneg].
+  apply Qmult_le_compat_r; lra.
+Qed.
+
+(* ---------------------------------------------------------------------------------------------- *)
+(* (5) the last sample time never exceeds shape_dur (needed by C10 for events decoded from a sequence) *)
+Lemma last_nth {A} (l : list A) (d : A) : last l d = nth (length l - 1) l d.
+Proof.
+  induction l as [|a l IH]; [reflexivity|].
+  destruct l as [|b l]; [reflexivity|].
+  change (last (a :: b :: l) d) with (last (b :: l) d). rewrite IH. cbn [length].
+  replace (Datatypes.S (Datatypes.S (length l)) - 1)%nat with (Datatypes.S (length l)) by lia.
+  replace (Datatypes.S (length l) - 1)%nat with (length l) by lia. reflexivity.
+Qed.
+
+Inductive rf_from_maker : rf -> Prop :=
+| from_shaped : forall gauss Sy pi w flip delay duration dwell0 cp fo po bw0 tbw rgz th mg ms use r g,
+    make_shaped gauss (if gauss then gauss_x else sinc_x) Sy pi w flip delay duration dwell0 cp fo po bw0 tbw rgz th mg ms use
+      = Ok (r, g) ->
+    0 <= eff_dwell Sy dwell0 -> 0 <= duration / eff_dwell Sy dwell0 -> rf_from_maker r
+| from_block : forall Sy pi flip delay duration bandwidth tbw fo po use r,
+    make_block Sy pi flip delay duration bandwidth tbw fo po use = Ok r -> rf_from_maker r
+| from_arbitrary : forall Sy pi w flip bw0 delay dwell0 fo po ns mg ms rgz th tbw use r g,
+    make_arbitrary Sy pi w flip bw0 delay dwell0 fo po ns mg ms rgz th tbw use = Ok (r, g) ->
+    0 <= eff_dwell Sy dwell0 -> rf_from_maker r
+| from_adiabatic : forall Sy delay duration dwell0 fo po rgz th bw tc use r g,
+    make_adiabatic_timing Sy delay duration dwell0 fo po rgz th bw tc use = Ok (r, g) ->
+    0 <= adia_dwell Sy dwell0 -> 0 <= duration / adia_dwell Sy dwell0 -> rf_from_maker r.
+
+Lemma grid_last_le (t : list Q) (n : nat) (dwell sd : Q) :
+  length t = n -> 0 <= dwell -> sd == inject_Z (Z.of_nat n) * dwell ->
+  (forall i, (i < n)%nat -> nth i t 0 == (inject_Z (Z.of_nat i) + (1 # 2)) * dwell) ->
+  last t 0 <= sd.
+Proof.
+  intros L Hd SD NTH. rewrite last_nth, L.
+  destruct n as [|n].
+  - destruct t; [|discriminate]. cbn [length Nat.sub nth]. rewrite SD.
+    setoid_replace (inject_Z (Z.of_nat 0) * dwell) with 0 by (cbn; ring). apply Qle_refl.
+  - rewrite NTH by lia. rewrite SD.
+    replace (Datatypes.S n - 1)%nat with n by lia.
+    rewrite Nat2Z.inj_succ. unfold Z.succ. rewrite inject_Z_plus. change (inject_Z 1) with 1.
+    assert (0 <= (1 # 2) * dwell) by (apply Qmult_le_0_compat; lra). lra.
+Qed.
+
+Lemma rf_t_last_le_shape_dur r : rf_from_maker r -> last (r_t r) 0 <= r_shape_dur r.
+Proof.
+  intro H. destruct H as [gauss Sy pi w flip delay duration dwell0 cp fo po bw0 tbw rgz th mg ms use r g H Hd Hq
+                         |Sy pi flip delay duration bandwidth tbw fo po use r H
+                         |Sy pi w flip bw0 delay dwell0 fo po ns mg ms rgz th tbw use r g H Hd
+                         |Sy delay duration dwell0 fo po rgz th bw tc use r g H Hd Hq].
+  - assert (SP : shaped_spec (if gauss then gauss_x else sinc_x)) by (destruct gauss; [apply gauss_spec|apply sinc_spec]).
+    destruct (shaped_grid _ _ SP _ _ _ _ _ _ _ _ _ _ _ _ _ _ _ _ _ _ _ H) as (A & B & C & _).
+    destruct (shaped_shape_dur _ _ SP _ _ _ _ _ _ _ _ _ _ _ _ _ _ _ _ _ _ _ H) as (SD & _).
+    apply (grid_last_le (r_t r) (Z.to_nat (rnd_he (duration / eff_dwell Sy dwell0))) (eff_dwell Sy dwell0) (r_shape_dur r));
+      [congruence|exact Hd| |exact C].
+    rewrite SD. rewrite Z2Nat.id by (apply rnd_he_nonneg; exact Hq). reflexivity.
+  - apply make_block_inv in H. destruct H as (d & _ & _ & _ & _ & _ & T & SD & _). cbv zeta in T, SD.
+    rewrite T, SD. cbn [last]. apply Qle_refl.
+  - destruct (arb_grid _ _ _ _ _ _ _ _ _ _ _ _ _ _ _ _ _ _ H) as (A & _ & C & D).
+    apply (grid_last_le (r_t r) (length w) (eff_dwell Sy dwell0) (r_shape_dur r)); [exact A|exact Hd|exact D|exact C].
+  - destruct (adia_grid _ _ _ _ _ _ _ _ _ _ _ _ _ H) as (A & B).
+    destruct (adia_fields _ _ _ _ _ _ _ _ _ _ _ _ _ H) as (_ & SD & _).
+    apply (grid_last_le (r_t r) (Z.to_nat (rnd_he (duration / adia_dwell Sy dwell0 + rf_eps))) (adia_dwell Sy dwell0) (r_shape_dur r));
+      [exact A|exact Hd| |exact B].
+    rewrite SD. rewrite Z2Nat.id; [reflexivity|].
+    apply rnd_he_nonneg. pose proof rf_eps_nonneg. lra.
+Qed.
